@@ -1416,6 +1416,10 @@ pub fn gen(prop: &str, seed: u64, thorough: bool) -> Case {
                 }
                 c.family = "session-mix/single-preemption-sweep".into();
                 c.tags.push("preempt1".into());
+                if thorough && seed % 64 == 15 {
+                    c.family = "session-mix/preemption-pair-sweep".into();
+                    c.tags.push("preempt2".into());
+                }
                 c.params.policy = Policy::Np;
                 c.params.fair = 400;
                 c.params.oversleep_max = 0;
